@@ -20,6 +20,8 @@ type bridge struct {
 	dropped int
 	// lingering: relay-side calls whose client side is gone (half-open)
 	lingering []*bridgeConn
+	// held[p]: gate on the relay's sends towards p's connections (slow down-link)
+	held map[int]chan struct{}
 }
 
 type bridgeConn struct {
@@ -133,6 +135,50 @@ func (b *bridge) clearFaults() {
 	b.mu.Lock()
 	b.drop = map[int]map[string]int{}
 	b.mu.Unlock()
+	b.unhold(0)
+	b.unhold(1)
+}
+
+// hold makes the relay's sends towards identity p's current connections block (a slow down-link) until unhold.
+func (b *bridge) hold(p int) bool {
+	b.mu.Lock()
+	defer b.mu.Unlock()
+	if b.held == nil {
+		b.held = map[int]chan struct{}{}
+	}
+	if b.held[p] != nil || len(b.conns[p]) == 0 {
+		return false
+	}
+	g := make(chan struct{})
+	b.held[p] = g
+	for _, c := range b.conns[p] {
+		c.srv.setGate(g)
+	}
+	return true
+}
+
+// unhold lets the held sends towards p go on.
+func (b *bridge) unhold(p int) bool {
+	b.mu.Lock()
+	g := b.held[p]
+	delete(b.held, p)
+	cs := append([]*bridgeConn{}, b.conns[p]...)
+	cs = append(cs, b.lingering...)
+	b.mu.Unlock()
+	if g == nil {
+		return false
+	}
+	for _, c := range cs {
+		if c.who == p {
+			c.srv.mu.Lock()
+			if c.srv.gate == g {
+				c.srv.gate = nil
+			}
+			c.srv.mu.Unlock()
+		}
+	}
+	close(g)
+	return true
 }
 
 func (b *bridge) stopAll() {
